@@ -133,7 +133,9 @@ Hypotheses, all explicit:
   (that `build_builder` accepts the traced schema is PROVED: `Lemmas.C06.newRoot_traced`)
   `hcap`   capacity: the sizes of the samples fit the head room of the fresh builder (`room root0 = min (2^31-1 - used)
            (free dictionary keys)`, `Props.C01.small_NoCap`).
-The statement stops at `build_arrays` because totality of `finish` is not proved (`Props.C01.toMarrow_complete_partial`). -/
+The statement stops at `build_arrays`: `finish` is total on well-formed states of well-typed schemas
+(`Props.C01.toMarrow_complete`), but its typing hypothesis `typedFs` (sizes `i32`, union type ids `i8`) is derived for
+schemas traced by `from_type` only (`Props.C03.fromType_good`), not yet for `from_samples`. -/
 theorem C06_closure_build_partial (o : Options) (ext : Ext) (h0 : o.overwrites = []) (xs : List SVal) (fields : List Field)
     (h : fromSamples .fixed o xs = .ok fields)
     (hok : ∀ x ∈ xs, SampleOK o x) (hex : ∀ x ∈ xs, excludedRow ext fields x = false)
@@ -145,15 +147,16 @@ theorem C06_closure_build_partial (o : Options) (ext : Ext) (h0 : o.overwrites =
   obtain ⟨t, n, children, md, ht, hs, _, _⟩ := fromSamples_root h
   have hside := to_schema_side_of_WF o h0 t (fromSamples_inv ht).wf fields hs
   obtain ⟨root0, hnew⟩ := newRoot_traced o h0 t (fromSamples_inv ht) fields hs
-  exact Props.C01.toMarrow_complete_partial ext fields xs root0 hside.2.2 hnew (hsafe root0 hnew) htot
+  obtain ⟨root, hrun⟩ := Props.C01.runRows_complete ext fields xs root0 hside.2 hnew (hsafe root0 hnew) htot
     (fun r hr => ⟨sampleOK_noRaw _ r (hok r hr), fromSamples_interpRow o ext h0 h r hr (hok r hr) (hex r hr)⟩)
     (hcap root0 hnew)
+  exact ⟨root, hrun, by rw [Props.C03.toMarrow_eq, hrun]; rfl⟩
 
 /-! ### build ⇒ the arrays mean the samples -/
 
 /-- **`C06_closure_decode`**.  Whenever `to_marrow` with the traced schema returns arrays for the collection, there is one
 array per traced field and slot `i` of the arrays, read by the Arrow rules (`Spec.decodeAll`), is column by column the
-documented value of sample `i`.  The schema side conditions of `C01_build_decode` (`Map2F`, `SchemaOKF`, `coveredF`) are
+documented value of sample `i`.  The schema side conditions of `C01_build_decode` (`SchemaOKF`, `coveredF`) are
 discharged from the shape of traced schemas (`Lemmas/C06Side.lean`). -/
 theorem C06_closure_decode (o : Options) (ext : Ext) (h0 : o.overwrites = []) (xs : List SVal) (fields : List Field)
     (arrs : List Arr) (h : fromSamples .fixed o xs = .ok fields)
@@ -169,7 +172,7 @@ theorem C06_closure_decode (o : Options) (ext : Ext) (h0 : o.overwrites = []) (x
         interpRow ext fields xs[i] = .ok (.struct (LFields.ofList (cols.map fun c => (c.1, c.2.getD i .null)))) := by
   obtain ⟨t, n, children, md, ht, hs, _, _⟩ := fromSamples_root h
   have hside := to_schema_side_of_WF o h0 t (fromSamples_inv ht).wf fields hs
-  exact Props.C01.C01_build_decode ext fields xs arrs hside.1 hside.2.1 hside.2.2 hsafe
+  exact Props.C01.C01_build_decode ext fields xs arrs hside.1 hside.2 hsafe
     (fun x hx => sampleOK_noRaw _ x (hok x hx)) hm
 
 /-- **`C06_closure_readback`**: reading the arrays back with `deserialize_any` reproduces the samples — slot `i` of
